@@ -6,8 +6,12 @@
    copies the resolved kind, so the hash is the class of the public content INCLUDING the kind
    at every level) and F20 (validateArray links every element to its array itself; everything
    else is linked by linkParent, which walks `children` from FINAL_OUTPUT and therefore never
-   reaches a declaration under xpath_dynamic: those keep a nil parent).
-   Executable definitions only. *)
+   reaches a declaration under xpath_dynamic: those keep a nil parent) and F28 (the expanded copy
+   of a template gets a FRESH copy of the reference site's xpath_dynamic, which is then validated
+   once for the result: vgo validates the raw declaration again, it never re-validates an
+   already validated one; the old double validation, which appended the computed children below
+   that xpath_dynamic twice, is refuted by replays/corpus/C02/F28-* and by
+   double_validation_old_refuted).  Executable definitions only. *)
 From Coq Require Import String List NArith Bool.
 From Coq.Strings Require Import Byte.
 Import ListNotations.
